@@ -514,6 +514,7 @@ func runC14(c *Ctx) error {
 		c14One(c, m, schemaEnc, root, q, mutation)
 	}
 	// the Go type shapes the builder accepts, with zero / empty / nil values, against the schema advertised for them
+	kfReproC14(c.Rep)
 	c14SharedFragmentArgs(c)
 	c14Zoo(c, c.Rng.Fork(), c.N(150, 6000))
 	return nil
